@@ -230,6 +230,7 @@ def run(prog, chk):
         "history dependence through mutation of the sources: every write to the caller's sources found by the C07 ownership analysis is a C08 violation too (R08.5)",
         "glyph copies only use the UFO glyph protocol (library-agnostic) (R08.6)",
         "feature writer objects keep no per-font state outside the per-call self.context; memoising decorators only on reviewed per-compile classes (R08.7)",
+        "filter objects keep no state outside the per-call self.context: a filter object reused for another font gives what a fresh one gives (R08.8, shared with C14)",
     ]
     chk.not_decided += ["byte identity itself", "behavioural differences between defcon and ufoLib2", "ordering of dict-typed UFO containers (treated as content)"]
     chk.assumptions += ["glyph-class literals and sets handed to fontTools as sets are order-neutral sinks (coverage / class tables are sorted by glyph id)",
@@ -241,6 +242,8 @@ def run(prog, chk):
     chk.guard(r085, prog, chk)
     chk.guard(r086, prog, chk)
     chk.guard(r087, prog, chk)
+    from .c14 import check_no_filter_state
+    chk.guard(check_no_filter_state, prog, chk, "R08.8")
 
 
 # ----------------------------------------------------------------------------- R08.1
@@ -778,6 +781,8 @@ def r087(prog, chk, rule="R08.7"):
 
 
 MUTANTS = [
+    M("transformations filter caches its matrix on the instance (seeded C08e / C15c)", "ufo2ft/filters/transformations.py", "TransformationsFilter.set_context",
+      "ctx.matrix = m", "if getattr(self, '_matrix', None) is None:\n    self._matrix = m\nctx.matrix = self._matrix", rule="R08.8"),
     M("kerning bucket keys built in set order (mutation scan survivor)", "ufo2ft/featureWriters/kernFeatureWriter.py", "splitKerning",
       "scripts = tuple(sorted(scripts))", "scripts = tuple(list(scripts))", rule="R08.1"),
     M("merged bucket keys built in set order", "ufo2ft/featureWriters/kernFeatureWriter.py", "mergeScripts",
